@@ -191,14 +191,19 @@ static std::string run(const Args& a) {
         Mesh m1(ARG(1)); Mesh m2(ARG(2)); Mesh m3;
         m3.merge(m1,m2);
         m3.save(ARG(3));
-    } else if (op=="CMP") {            // kind f1 f2 : bitwise equality of the loaded objects
+    } else if (op=="CMP") {            // kind f1 f2 [format] : bitwise equality of the loaded objects (explicit format: not from the suffix)
         const std::string kind = STR(1);
+        const std::string fmt = (a.size()>4) ? E(STR(4)) : std::string();
+        auto load = [&](auto& M,const char* f) {
+            maths::ifstream ifs(f);
+            if (fmt!="") ifs >> maths::format(fmt) >> M; else ifs >> M;
+        };
         bool eq = false;
-        if (kind=="matrix") { Matrix A(ARG(2)), B(ARG(3)); eq = same_bits(A,B); }
-        else if (kind=="sym") { SymMatrix A(ARG(2)), B(ARG(3)); eq = A.nlin()==B.nlin() && std::memcmp(A.data(),B.data(),A.size()*sizeof(double))==0; }
-        else if (kind=="vector") { Vector A; A.load(ARG(2)); Vector B; B.load(ARG(3)); eq = A.size()==B.size() && std::memcmp(A.data(),B.data(),A.size()*sizeof(double))==0; }
+        if (kind=="matrix") { Matrix A, B; load(A,ARG(2)); load(B,ARG(3)); eq = same_bits(A,B); }
+        else if (kind=="sym") { SymMatrix A, B; load(A,ARG(2)); load(B,ARG(3)); eq = A.nlin()==B.nlin() && std::memcmp(A.data(),B.data(),A.size()*sizeof(double))==0; }
+        else if (kind=="vector") { Vector A, B; load(A,ARG(2)); load(B,ARG(3)); eq = A.size()==B.size() && std::memcmp(A.data(),B.data(),A.size()*sizeof(double))==0; }
         else if (kind=="sparse") {
-            SparseMatrix A(ARG(2)), B(ARG(3));
+            SparseMatrix A, B; load(A,ARG(2)); load(B,ARG(3));
             eq = A.nlin()==B.nlin() && A.ncol()==B.ncol() && A.size()==B.size();
             if (eq) { auto ia = A.begin(); auto ib = B.begin();
                       for (; ia!=A.end() && ib!=B.end(); ++ia, ++ib)
